@@ -13,9 +13,9 @@ ASSUMPTIONS = ["private scalars of lazily skipped (flat) securities are excluded
 
 
 def plan(tier):
-    n = 1200 if tier == "quick" else 30000
+    n = 1200 if tier == "quick" else 12000
     return [dict(unit="w1", n=n, builds=["py", "so"], case_timeout=60), dict(unit="w1fresh", n=n // 2, builds=["py", "so"], case_timeout=60),
-            dict(unit="w2inject", n=150 if tier == "quick" else 4000, builds=["py", "so"], case_timeout=180)]
+            dict(unit="w2inject", n=150 if tier == "quick" else 1600, builds=["py", "so"], case_timeout=180)]
 
 
 def floors(tier):
